@@ -200,7 +200,7 @@ Lemma handle_privileged_owner w target sender funds m w2 subs own :
   privileged target m = Some own -> handle w target sender funds m = Ok (w2, subs) ->
   owner (own w) = Some sender /\ funds = [].
 Proof.
-  unfold privileged, handle. intros Hp H.
+  unfold privileged. intros Hp H. apply handle_ok_typed in H. destruct H as [H _]. unfold handle_typed in H.
   destruct m as [em|a|pm|fm].
   - destruct (String.eqb target EM) eqn:E; [|destruct em as [|[| |]]; discriminate].
     apply bind_ok in H. destruct H as [s [Hs H]]. apply em_execute_auth in Hs. destruct Hs as [Hf Hs].
